@@ -304,6 +304,51 @@ ConfDrift(r, c, qm2) ==
    \cup (IF ownOk /\ posOk /\ deterministic /\ c.crashfree /\ ObservedFs(r.io) # expIo
          THEN {"file-system effects of " \o call.op \o " differ from Wal's plan"} ELSE {})
 
+(* Clean restart: where the writer resumes, which files recovery opens, the recovery GC, and which *)
+(* files the rebuilt queues hold on to.                                                         *)
+AttrSet(attr, c) == UNION { {attr[q][i] : i \in 1..Len(attr[q])} : q \in QIds(c) }
+ResumeOff(off) ==
+  IF off % BlockSize # 0 /\ BlockSize - (off % BlockSize) < HeaderLen /\ (off \div BlockSize) + 1 < BlocksPerFile
+  THEN ((off \div BlockSize) + 1) * BlockSize ELSE off
+SetToSeq(S) == LET RECURSIVE Srt(_)
+                   Srt(T) == IF T = {} THEN <<>> ELSE LET x == CHOOSE x \in T : \A y \in T : x <= y IN <<x>> \o Srt(T \ {x})
+               IN Srt(S)
+ConfRestart(r, c, qm2, attr2) ==
+  IF ~("st" \in DOMAIN r) \/ ~("ent" \in DOMAIN r) \/ ~c.hasPrev \/ r.res.k # "ok" \/ c.cur.op # "restart" \/ ~c.crashfree
+  THEN {}
+  ELSE
+    LET trk0 == {c.prevTrk[i][1] : i \in 1..Len(c.prevTrk)}
+        f == c.prevW[1]
+        off == ResumeOff(c.prevW[2])
+        refs == SnapRefs(r.st.snap)
+        ent == r.ent
+        posKnown == \A i \in 1..Len(ent) : ent[i][2] >= 0 /\ ent[i][2] < c.nq
+        lens == [i \in 1..Len(ent) |-> RecHdr + c.qlen[ent[i][2] + 1]]
+        gcRan == GcCan(refs, trk0, f)
+        expEmpty == IF gcRan THEN {qq \in QIds(c) : qm2[qq].a /\ Len(qm2[qq].recs) = 0} ELSE {}
+        posOk == posKnown /\ {ent[i][2] : i \in 1..Len(ent)} = expEmpty /\ Len(ent) = Cardinality(expEmpty)
+                 /\ \A i \in 1..Len(ent) : ent[i][1] = "pos" /\ ent[i][3] = qm2[ent[i][2]].next
+        opens == SetToSeq({t \in trk0 : t <= f})
+        gc == GcPlanG(refs, trk0, f, off, lens, TRUE)
+        expIo == [i \in 1..Len(opens) |-> Eff("OP", opens[i], -1, 0, 0)] \o FsOnly(gc.effs)
+        \* the cursor the writer has after recovery (before the recovery GC writes): observed cursor minus GC bytes
+        gcBytes == EffBytes(gc.effs)
+    IN  (IF refs # AttrSet(attr2, c) THEN {"after restart the queues hold on to other files than the ones their retained records were written from"} ELSE {})
+   \cup (IF ~posOk THEN {"the recovery GC did not record exactly the empty queues with their next positions"} ELSE {})
+   \cup (IF posOk /\ ObservedFs(r.io) # expIo THEN {"file-system effects of open (files opened, recovery GC) differ from Wal's plan"} ELSE {})
+   \cup (IF posOk /\ <<r.st.w[1], r.st.w[2]>> # <<gc.file, gc.off>> THEN {"the writer does not resume where the specification says (cursor hand-over)"} ELSE {})
+
+ConfAttr(r, c, attr2) ==
+  IF ~("st" \in DOMAIN r) \/ ~c.crashfree \/ r.res.k # "ok" \/ c.cur.op \notin {"create", "delete", "append", "truncate", "restart"} THEN {}
+  ELSE  (IF c.cur.op # "restart" /\ SnapRefs(r.st.snap) # AttrSet(attr2, c)
+         THEN {"the queues hold on to other files than the ones their retained records were written from"} ELSE {})
+   \* summary().file_number of a queue = the file its oldest retained record was written from
+   \cup {"summary() reports another first file than the one the oldest retained record was written from" :
+           i \in {i \in 1..Len(r.st.qs) :
+                    LET e == r.st.qs[i] IN
+                      e.q >= 0 /\ e.q < c.nq /\
+                      e.sumfile # (IF Len(attr2[e.q]) = 0 THEN -1 ELSE attr2[e.q][1])}}
+
 ReportDrift(D) == \A m \in D : PrintT("DRIFT|" \o ToString(l) \o "|" \o ToString(ctx.run) \o "|" \o ctx.script \o "|" \o m)
 
 -----------------------------------------------------------------------------
@@ -393,7 +438,7 @@ TrEnd ==
                              ELSE IF qm2 = pend[Len(pend)].st THEN SetLastOp(pend, NoCall)
                              ELSE Append(pend, [st |-> qm2, op |-> NoCall])
      IN /\ Report(V)
-        /\ (fatal \/ ReportDrift(ConfDrift(R, c, qm2)))
+        /\ (fatal \/ ReportDrift(ConfDrift(R, c, qm2) \cup ConfRestart(R, c, qm2, attr2) \cup ConfAttr(R, c, attr2)))
         /\ nviol' = nviol + Cardinality(V)
         /\ refObs' = IF c.c14 = 1 /\ ~c.sub THEN Append(refObs, obs) ELSE refObs
         /\ ctx' = IF fatal THEN [c EXCEPT !.dead = TRUE, !.cur = NoCall]
